@@ -375,6 +375,9 @@ def selftest(ctx):
 
 
 def run(ctx):
+    from spverif.ref import enums as _enums
+    if ctx.shard[0] == 0:
+        _enums.check(ctx, "code_tables", ['spacepackets.ecss.pus_1_verification'])
     from spverif.san import scribble
     scribble.install()
     r = ctx.rng
